@@ -556,3 +556,71 @@ pub fn dbg_app2(s: &mut Src, sh: &RnShape) {
     forget(rn);
     forget(light);
 }
+
+// ---------------------------------------------------------------------------------------
+// restart from a durable image
+
+/// `RawNode::new` on a durable image (hard state, snapshot point, entries, configuration): the
+/// restarted node is a follower whose term, vote and commit are exactly the durable hard state
+/// (so nothing it promised before the crash - it only ever released promises after persisting
+/// them, C06 per-Ready clauses - is forgotten), nothing at or below commit is altered, apply
+/// resumes right after the configured applied index, and no Ready is pending.
+pub fn restart(s: &mut Src, base: u64, n: usize, commit_off: u64, applied_off: u64, learner: bool) {
+    use raft::Config;
+    let mut st = VStore::new(base, if base == 0 { 0 } else { 1 });
+    let mut prev = st.snap_term;
+    let mut terms = [0u64; LMAX];
+    let mut i = 0;
+    while i < n {
+        let t = s.u64();
+        vassume!(t >= prev && t >= 1 && t < TERM_MAX);
+        terms[i] = t;
+        st.push(t);
+        prev = t;
+        i += 1;
+    }
+    let last_term = prev;
+    let mut hs = HardState::default();
+    hs.term = s.u64();
+    hs.vote = s.below(4);
+    hs.commit = base + commit_off;
+    vassume!(hs.term >= last_term && hs.term < TERM_MAX);
+    st.hs = hs.clone();
+    let mut cs = ConfState::default();
+    cs.voters = vec![1, 2, 3];
+    if learner {
+        cs.learners = vec![4];
+    }
+    st.cs = cs;
+    let mut cfg = Config::new(ME);
+    cfg.election_tick = ELECTION_TICK;
+    cfg.heartbeat_tick = HEARTBEAT_TICK;
+    cfg.max_inflight_msgs = 2;
+    cfg.applied = base + applied_off;
+    cfg.check_quorum = s.bool();
+    cfg.pre_vote = s.bool();
+    let lg = logger();
+    let res = RawNode::new(&cfg, st, &lg);
+    assert!(res.is_ok(), "restart from a consistent durable image failed");
+    let rn = res.unwrap();
+    let r = &rn.raft;
+    assert!(r.term == hs.term && r.vote == hs.vote, "term / vote after restart differ from the durable hard state");
+    assert!(r.raft_log.committed == hs.commit, "commit after restart");
+    assert!(r.raft_log.applied == base + applied_off, "applied after restart");
+    assert!(r.state == StateRole::Follower && r.leader_id == 0);
+    assert!(r.raft_log.last_index() == base + n as u64 && r.raft_log.persisted == base + n as u64);
+    i = 0;
+    while i < n {
+        assert!(r.raft_log.term(base + 1 + i as u64).ok() == Some(terms[i]), "log altered by restart");
+        i += 1;
+    }
+    assert!(r.promotable() && r.msgs.is_empty());
+    assert!(r.prs().conf().voters().contains(1) && r.prs().conf().voters().contains(3));
+    assert!(r.prs().get(4).is_some() == learner);
+    let v = rn.verif_view();
+    assert!(v.prev_hs == hs && v.commit_since_index == base + applied_off && v.records.is_empty());
+    // has_ready exactly when committed entries are waiting to be applied
+    assert!(rn.has_ready() == (hs.commit > base + applied_off), "has_ready after restart");
+    vcover!(true, "restarted");
+    forget(rn);
+}
